@@ -278,12 +278,12 @@ fn tri_cover(t: [(i32, i32); 3], r: &mut Report) {
     r.eval();
     let vs = t.map(|(x, y)| vertex(pt3(x as f32 / 2.0, y as f32 / 2.0, 1.0), ()));
     let mut covered = std::collections::BTreeSet::new();
-    let res = caught(|| tri_fill(vs, |sl| { for x in sl.xs.clone() { covered.insert((x as i64, sl.y as i64)); } }));
+    let res = caught(|| tri_fill(vs, |sl| { for x in sl.xs.clone() { covered.insert((x as i128, sl.y as i128)); } }));
     let case = obj! {"kind" => "tri", "t" => t.iter().flat_map(|p| [p.0, p.1]).collect::<Vec<i32>>()};
     if let Err(p) = res { r.violation(format!("consumer-tri_fill-panic|{t:?}"), format!("tri_fill{t:?}/2 panicked: {p}"), case); return; }
-    let ti = t.map(|(x, y)| (x as i64, y as i64));
+    let ti = t.map(|(x, y)| (x as i128, y as i128));
     let mut any_inside = false;
-    for j in -1..7i64 { for i in -1..7i64 {
+    for j in -1..7i128 { for i in -1..7i128 {
         let c = cover::classify(ti, 2, i, j, 0.001);
         let got = covered.contains(&(i, j));
         match c {
